@@ -149,7 +149,7 @@ func checkC01(r *mon.Run) {
 			c01Case(r, rng, s, i)
 		}
 	})
-	r.Require(int64(nStars*perStar), 60, "valid_accepted", "perturbed_rejected_scmp", "expired_rejected", "xover_second_hop_rejected", "epic_wrapped")
+	r.Require(int64(nStars*perStar), 60, "valid_accepted", "perturbed_rejected_scmp", "expired_rejected", "xover_second_hop_rejected", "epic_wrapped", "valid_then_tampered_pair")
 }
 
 func c01Case(r *mon.Run, rng *rand.Rand, s *rfix.Star, idx int) {
@@ -288,6 +288,14 @@ func c01Case(r *mon.Run, rng *rand.Rand, s *rfix.Star, idx int) {
 		return
 	}
 	if rawPatch != nil {
+		if rng.IntN(2) == 0 {
+			// history: the same processor first sees the untampered packet (a valid
+			// flow), then the tampered variant of the very same hop field
+			pre := s.Process(in, sc.In)
+			if pre.Forwarded() {
+				r.Event("valid_then_tampered_pair")
+			}
+		}
 		rawPatch(in, h)
 	}
 	pname := "none"
